@@ -97,10 +97,29 @@ def build_traces(path, tier, seed):
         recs.append(rec)
         meta[tid] = m
 
+    nser0 = nser
+    nser += 14 if tier == "quick" else 80
     for i in range(nser):
         n = gen.length(rng, 2, nmax)
         a, shape = gen.record(rng, n)
-        if i % 6 == 0:
+        if i >= nser0:
+            # strong head, then a coda whose squares are about one ulp of the running sum (slowly varying shapes): the sums
+            # hardly move any more and exact monotonicity is at stake
+            m = int(rng.integers(100, 400))
+            head = rng.standard_normal(int(rng.integers(3, 8))) + float(rng.choice([0.3, -0.8, 1.2]))
+            kk = np.arange(1, m + 1)
+            coda = [np.sin(0.3 * kk) * (1 + 0.37 * np.cos(1.1 * kk)), kk / float(m), np.abs(np.sin(0.05 * kk))][int(rng.integers(3))]
+            a = np.concatenate([head, np.sqrt(np.sum(head ** 2) * 2.2e-16) * float(rng.choice([0.2, 0.5, 1.0, 2.0, 5.0])) * coda])
+            n, shape = len(a), "strong head, coda at one ulp of the running sum"
+        elif rng.integers(5) == 0 and n >= 8:
+            # strong motion followed by a weak but non-zero coda (dynamic range 1e6 .. 1e12), non-zero first sample: the
+            # running sums hardly move any more, exact monotonicity is at stake
+            k = int(rng.integers(2, max(3, n // 2)))
+            a = rng.standard_normal(n)
+            a[k:] *= 10.0 ** rng.uniform(-12, -6) * np.exp(-np.arange(n - k) / max(1.0, (n - k) / 6.0))
+            a[0] = float(rng.choice([0.7, -1.3, 2.0]))
+            shape = "strong start, weak coda"
+        if i % 6 == 0 and "coda" not in shape:
             a = np.round(a * 3).astype(np.int64)          # integer dtype record
         elif i % 6 == 1:
             a = [float(x) for x in a]                     # list input
